@@ -39,7 +39,7 @@ macro_rules! rat_harnesses {
 
             #[kani::proof]
             #[kani::unwind($unw)]
-            fn new_canonical() {
+            pub(crate) fn new_canonical() {
                 let (a, b, x) = any_frac();
                 canon(&x, a as $w, b as $w);
                 let i = R::new_int(a);
@@ -50,7 +50,7 @@ macro_rules! rat_harnesses {
 
             #[kani::proof]
             #[kani::unwind($unw)]
-            fn add_sub() {
+            pub(crate) fn add_sub() {
                 let (a, b, x) = any_frac();
                 let (c, d, y) = any_frac();
                 let (a, b, c, d) = (a as $w, b as $w, c as $w, d as $w);
@@ -70,7 +70,7 @@ macro_rules! rat_harnesses {
 
             #[kani::proof]
             #[kani::unwind($unw)]
-            fn mul_div_neg() {
+            pub(crate) fn mul_div_neg() {
                 let (a, b, x) = any_frac();
                 let (c, d, y) = any_frac();
                 let (a, b, c, d) = (a as $w, b as $w, c as $w, d as $w);
@@ -94,7 +94,7 @@ macro_rules! rat_harnesses {
 
             #[kani::proof]
             #[kani::unwind($unw)]
-            fn order_eq_hash() {
+            pub(crate) fn order_eq_hash() {
                 let (a, b, x) = any_frac();
                 let (c, d, y) = any_frac();
                 let (a, b, c, d) = (a as $w, b as $w, c as $w, d as $w);
@@ -120,7 +120,7 @@ macro_rules! rat_harnesses {
 
             #[kani::proof]
             #[kani::unwind($unw)]
-            fn floor_ceil() {
+            pub(crate) fn floor_ceil() {
                 let (_a, _b, x) = any_frac();
                 let (p, q) = (x.a as $w, x.b as $w);
                 let f = x.floor();
